@@ -42,10 +42,16 @@ def recompute (s : State) : State :=
   { s with reactants := s.held.foldl (fun acc r => unionSet acc r.re) [],
            products  := s.held.foldl (fun acc r => unionSet acc r.pr) [] }
 
+/-- Python's list position: a negative one counts from the end (`-1` is the last element); `none` = IndexError -/
+def pyIndex (n : Nat) (i : Int) : Option Nat :=
+  if 0 ≤ i then (if i.toNat < n then some i.toNat else none)
+  else if (-i).toNat ≤ n then some (n - (-i).toNat) else none
+
 inductive Op where
   | add (r : Reac)
   | addMany (rs : List Reac)
   | removeIdx (i : Nat)                 -- `remove_reaction(int)`, `0 ≤ i < len` (else IndexError)
+  | removeAt (i : Int)                  -- `remove_reaction(int)` with Python's positions, negative ones included
   | removeIdxs (is : List Nat)
   | removeInst (eqk : Nat)              -- `remove_reaction(Reaction)`: drops every equal reaction
   | removeInsts (eqks : List Nat)
@@ -61,6 +67,9 @@ def step (s : State) : Op → State
   | .add r => add s r
   | .addMany rs => rs.foldl add s
   | .removeIdx i => recompute { s with held := s.held.eraseIdx i }
+  | .removeAt i => match pyIndex s.held.length i with
+      | some k => recompute { s with held := s.held.eraseIdx k }
+      | none => s                        -- IndexError: nothing changes
   | .removeIdxs is => recompute { s with held := filterIdx (fun i => !(i ∈ is)) 0 s.held }
   | .removeInst k => recompute { s with held := s.held.filter (fun r => r.eqk != k) }
   | .removeInsts ks => recompute { s with held := s.held.filter (fun r => !(r.eqk ∈ ks)) }
